@@ -87,6 +87,82 @@ func init() {
 		m.E.declStaking()
 		return &TupleV{Vs: []Val{App(SInt, "stk_total_bonded", m.stk()), IntLit(0)}}
 	}
+	// ---- fold of a callback over a delegator's delegations ----
+	// IterateDelegatorDelegations(ctx, del, cb): the callback is checked as the INDUCTIVE STEP of the fold that defines
+	// stk_bonded_dec: before the n-th call the (single) decimal accumulator captured by cb holds psum(n); after it, it must hold
+	// psum(n+1) = psum(n) + ite(validator exists and is BONDED, truncated token value of the shares, 0), and cb must not stop the
+	// iteration. After the fold the accumulator holds stk_bonded_dec(stk, del) and stk_bonded_of = TruncateInt of it.
+	invokeModels[ifStake+".IterateDelegatorDelegations"] = func(m *Machine, f *Frame, cc *ssa.CallCommon, a []Val) Val {
+		E := m.E
+		E.declStaking()
+		models[pkgSdk+".AccAddressFromBech32"](m, nil, nil, []Val{E.D.StrLit("")})
+		E.Assume("A-STAKING-FOLD", "x/staking IterateDelegatorDelegations(del, cb) calls cb once per delegation of del (existing, with the stored shares and the bech32 validator address) until cb returns true; the alliance-bonded amount stk_bonded_of(stk, del) is DEFINED as TruncateInt of the fold over those delegations of: validator exists and status == Bonded ? TokensFromSharesTruncated(shares) : 0. The callback is verified as the inductive step of that fold")
+		del := term(a[2])
+		cb, ok := a[3].(*ClosureV)
+		if !ok {
+			panic(unsupported("IterateDelegatorDelegations with a non-closure callback"))
+		}
+		var acc *PtrV
+		for _, b := range cb.Bind {
+			if p, isP := b.(*PtrV); isP {
+				if typeKey(p.Elem) == tDec {
+					if acc != nil {
+						panic(unsupported("fold callback with more than one decimal accumulator"))
+					}
+					acc = p
+				}
+			}
+		}
+		if acc == nil {
+			panic(unsupported("fold callback without a decimal accumulator"))
+		}
+		x := f.Block.Instrs[f.Idx-1]
+		site := m.siteName(f, "IterateDelegatorDelegations")
+		props := []string{}
+		if m.Top != nil && m.Top.C != nil {
+			props = allProps(m.Top.C)
+		}
+		s := m.stk()
+		D := E.D
+		D.Fun("stk_psum", []Sort{SInt, SBytes, SInt}, SDec)
+		D.Fun("stk_nth", []Sort{SInt, SBytes, SInt}, SBytes)
+		D.Fun("stk_ndels", []Sort{SInt, SBytes}, SInt)
+		D.Fun("stk_bonded_dec", []Sort{SInt, SBytes}, SDec)
+		D.Fun("dquotrunc", []Sort{SDec, SDec}, SDec)
+		D.Axiom("(forall ((s Int) (a Bytes)) (! (and (>= (stk_ndels s a) 0) (= (stk_psum s a 0) 0) (= (stk_bonded_dec s a) (stk_psum s a (stk_ndels s a))) (= (stk_bonded_of s a) (dtrunc (stk_bonded_dec s a)))) :pattern ((stk_bonded_dec s a))))")
+		// init: the accumulator starts at the empty sum
+		E.addObl(m, &Obligation{Name: fmt.Sprintf("%s:fold-init@%s", m.Top.Name, site), Func: m.Top.Name, Kind: "fold", Props: props, Reading: ReadU,
+			Goal: Eq(term(m.Load(acc)), DecInt(0)), Src: "the accumulator of the fold starts at 0"})
+		n := D.Fresh("foldn", SInt)
+		m.AssumeT(And(Ge(n, IntLit(0)), Lt(n, App(SInt, "stk_ndels", s, del))))
+		v := App(SBytes, "stk_nth", s, del, n)
+		m.AssumeT(App(SBool, "stk_hasdel", s, del, v))
+		psn := App(SDec, "stk_psum", s, del, n)
+		m.StoreTo(acc, psn)
+		rt := cb.Fn.Params[0].Type()
+		d := m.symbolicValue(rt, "folddel").(*StructV)
+		setField(d, "DelegatorAddress", App(SStr, "acc_str", del))
+		setField(d, "ValidatorAddress", App(SStr, "val_str", v))
+		setField(d, "Shares", App(SDec, "stk_delshares", s, del, v))
+		step := Ite(And(App(SBool, "stk_exists", s, v), Eq(App(SInt, "stk_status", s, v), IntLit(3))),
+			decOp("dquotrunc", decOp("dmulint", App(SDec, "stk_delshares", s, del, v), App(SInt, "stk_tokens", s, v)), App(SDec, "stk_dshares", s, v)), DecInt(0))
+		name := m.Top.Name
+		nf := &Frame{Fn: cb.Fn, Env: map[ssa.Value]Val{}, Block: cb.Fn.Blocks[0], Call: x, Bind: cb.Bind, Loops: map[int]*LoopCtx{}}
+		nf.Env[cb.Fn.Params[0]] = d
+		nf.Key = FuncName(cb.Fn)
+		nf.OnRet = func(m2 *Machine, res []Val) Val {
+			E.addObl(m2, &Obligation{Name: fmt.Sprintf("%s:fold-step@%s", name, site), Func: name, Kind: "fold", Props: props, Reading: ReadU,
+				Goal: Eq(term(m2.Load(acc)), Add(psn, step)), Src: "one callback adds exactly: validator exists and is bonded ? truncated token value of the shares : 0"})
+			if len(res) == 1 {
+				E.addObl(m2, &Obligation{Name: fmt.Sprintf("%s:fold-continues@%s", name, site), Func: name, Kind: "fold", Props: props, Reading: ReadU,
+					Goal: Not(term(res[0])), Src: "the callback never stops the iteration early"})
+			}
+			m2.StoreTo(acc, App(SDec, "stk_bonded_dec", s, del))
+			return IntLit(0)
+		}
+		m.Frames = append(m.Frames, nf)
+		return IntLit(0)
+	}
 	// ---- mutators (used by the rebalance only) ----
 	// stkStep makes a new staking version in which only validator `val` and the delegation (del,val) may differ.
 	stkStep := func(m *Machine, del, val *Term) (*Term, *Term) {
